@@ -101,7 +101,7 @@ def hSampleN (toks : List String) : Option String := do
   let [hd, ms, sel] ← parseSections toks | none
   let [w, n, b] := hd | none
   let masks := splitRows w.toNat b.toNat ms
-  pure s!"replace={bit (sampleNReplace w.toNat n.toNat masks)} ok={bit (sampleNOk w.toNat n.toNat masks (natsOf sel))}"
+  pure s!"replace={bit (sampleNReplace w.toNat n.toNat masks)} ok={bit (sampleNOk w.toNat n.toNat masks (natsOf sel))} fjspok={bit (fjspStartsOk w.toNat n.toNat masks (natsOf sel))}"
 
 /-- `ops.selectbest B k | rewards[0..kB-1]` → chosen flat rows and returned rewards, for both
 tie-breakings of `max` -/
